@@ -56,6 +56,29 @@ def run(cx, rep):
                 else:
                     storers.add(mname)
                     defs_field = fld
+    # several dictionaries may be written; the DEFINITION table is the one the parameterless export method reads
+    written = {}
+    for mname, m in spc.methods.items():
+        for n in walk(m["function"]):
+            if n["type"] == "AssignmentExpression" and n["left"]["type"] == "MemberExpression" and s(n["left"]["object"]).startswith("this.") \
+                    and n["left"]["property"]["type"] == "Computed" and s(n["right"]) != "true":
+                written.setdefault(s(n["left"]["object"])[5:], set()).add(mname)
+    if len(written) > 1:
+        exported = set()
+        for mname, m in spc.methods.items():
+            fn = m["function"]
+            if fn.get("body") is None or fn_param_count(fn) != 0:
+                continue
+            for n in walk(fn["body"]):
+                for fld in written:
+                    if n["type"] == "SpreadElement" and s(n.get("arguments") or n.get("argument") or {}) == "this.%s" % fld:
+                        exported.add(fld)
+                    if n["type"] == "CallExpression" and s(n["callee"]) in ("Object.assign", "Object.entries", "Object.fromEntries", "structuredClone") and \
+                            any(s(a.get("expression", a)) == "this.%s" % fld for a in n["arguments"]):
+                        exported.add(fld)
+        if len(exported) == 1:
+            defs_field = next(iter(exported))
+            storers = set(written[defs_field])
     for mname, m in spc.methods.items():
         for n in walk(m["function"]):
             if n["type"] == "UnaryExpression" and n["operator"] == "delete" and prog_field and s(n["argument"]).startswith("this.%s[" % prog_field):
@@ -217,6 +240,8 @@ def run(cx, rep):
             mc = method_call(n) if n["type"] == "CallExpression" else None
             if mc and mc[1] in value_readers and "rintingContext" in s(mc[0]):
                 rep.ob("C16.5", "%s/%s" % (fname, mc[1]), False, "%s reads a collected definition body through %s()" % (fname, mc[1]), mod.loc(n))
+    # ---------------------------------------------------------------- C16.8
+    ref_text_rule(mod, spc, storers, defs_field, rep, "C16.8")
     # ---------------------------------------------------------------- C16.4
     rep.rule("C16.4", "schema printing keeps no state on the validator instances (it is a function of the type and the context)")
     instance_state_rule(mod, spc, rep, "C16.4")
@@ -407,3 +432,131 @@ def fresh_hash_context_rule(mod, spc, rep, rid):
                    "%s.%s computes a structural hash with the context `%s`, which is not created at the call: what hash() returns for a recursive type depends on the names already in that context (and on any memo it carries), so the synthetic definition names - and with them the exported definitions - depend on the order in which parsers were printed" % (cname, mname, s(mc[2][0])[:60]),
                    mod.loc(x), sample={"site": "%s.%s" % (cname, mname), "context": "fresh object literal" if fresh else s(mc[2][0])[:60]})
     rep.floor(rid, "hash() calls reached from schema printing", n, 1)
+
+
+def fn_param_count(fn):
+    return len(fn.get("params") or [])
+
+
+def _must_exec(stmts, pred):
+    """every NORMAL completion of the statement list has executed a statement / expression satisfying pred
+    (a path that throws is vacuous, a path that returns earlier is a counterexample)"""
+    for st in stmts:
+        t = st["type"]
+        if any(pred(x) for x in walk(st)) and t in ("ExpressionStatement", "VariableDeclaration"):
+            return True
+        if t == "ThrowStatement":
+            return True
+        if t == "ReturnStatement":
+            return any(pred(x) for x in walk(st))
+        if t == "BlockStatement":
+            if _must_exec(st["stmts"], pred):
+                return True
+        elif t == "IfStatement":
+            c, a = st["consequent"], st.get("alternate")
+            cs = c["stmts"] if c["type"] == "BlockStatement" else [c]
+            if a is not None:
+                as_ = a["stmts"] if a["type"] == "BlockStatement" else [a]
+                if _must_exec(cs, pred) and _must_exec(as_, pred):
+                    return True
+                # a branch that leaves without the effect is a counterexample unless it throws
+                for br in (cs, as_):
+                    if _leaves(br) and not _must_exec(br, pred):
+                        return False
+            else:
+                if _leaves(cs) and not _must_exec(cs, pred):
+                    return False
+        elif t == "TryStatement":
+            fin = st.get("finalizer")
+            if fin is not None and _must_exec(fin["stmts"], pred):
+                return True
+            if _must_exec(st["block"]["stmts"], pred) and (st.get("handler") is None or _must_exec(st["handler"]["body"]["stmts"], pred)):
+                return True
+    return False
+
+
+def _leaves(stmts):
+    return any(x["type"] == "ReturnStatement" for st in stmts for x in walk(st) if not (x is not st and x["type"] in ("FunctionExpression", "ArrowFunctionExpression")))
+
+
+def ref_text_rule(mod, spc, storers, defs_field, rep, rid):
+    """Two necessary conditions of `every $ref resolves in the final export, whatever the order of the calls`:
+    (a) the reference text of a name is a function of the name and of the options the context was built with - the
+        methods of the context whose result is emitted as a `$ref` read no field that is written after construction and
+        write none (otherwise the same name is referred to differently before and after some other call);
+    (b) the storing method files the body under the name it was given on every normal path (a `$ref` produced earlier
+        for that name must find it in the export)."""
+    rep.rule(rid, "the $ref text of a name depends on the name and the construction-time options only; a stored definition is filed under its own name on every path")
+    # methods of the context whose results are emitted as `$ref`
+    ref_methods = set()
+    for cname, c in mod.classes.items():
+        for mname, m in c.methods.items():
+            fn = m["function"]
+            if fn.get("body") is None:
+                continue
+            al = ts_common.local_aliases(fn)
+            for n in walk(fn):
+                if n["type"] == "KeyValueProperty" and s(n["key"]).strip('"\'') == "$ref":
+                    v = unparen(n["value"])
+                    if v["type"] == "Identifier" and al.get(v.get("value")) is not None:
+                        v = unparen(al[v["value"]])
+                    mc = method_call(v) if v["type"] == "CallExpression" else None
+                    if mc and mc[1] in spc.methods:
+                        ref_methods.add(mc[1])
+    rep.ob(rid, "ref-producers", bool(ref_methods), "no method of SchemaPrintingContext was found whose result is emitted as `$ref`", mod.loc(spc.node),
+           sample={"ref_methods": sorted(ref_methods)})
+    # closure over this.<method>() calls inside the context class
+    todo = list(ref_methods)
+    reach = set(ref_methods)
+    while todo:
+        mname = todo.pop()
+        fn = spc.methods[mname]["function"]
+        for n in walk(fn):
+            mc = method_call(n) if n["type"] == "CallExpression" else None
+            if mc and s(mc[0]) == "this" and mc[1] in spc.methods and mc[1] not in reach:
+                reach.add(mc[1])
+                todo.append(mc[1])
+    # fields written outside the constructor
+    def writes(fn):
+        out = set()
+        for n in walk(fn):
+            tgt = None
+            if n["type"] == "AssignmentExpression":
+                tgt = n["left"]
+            elif n["type"] == "UpdateExpression":
+                tgt = n["argument"]
+            elif n["type"] == "UnaryExpression" and n.get("operator") == "delete":
+                tgt = n["argument"]
+            elif n["type"] == "CallExpression":
+                mc = method_call(n)
+                if mc and mc[1] in ("push", "pop", "set", "add", "delete", "clear", "splice", "shift", "unshift", "sort", "reverse", "fill") and s(mc[0]).startswith("this."):
+                    out.add(s(mc[0])[5:].split(".")[0].split("[")[0])
+            if tgt is not None:
+                t = s(tgt)
+                if t.startswith("this."):
+                    out.add(t[5:].split(".")[0].split("[")[0])
+        return out
+    mutable = set()
+    for mname, m in spc.methods.items():
+        if m["function"].get("body") is not None:
+            mutable |= writes(m["function"])
+    for mname in sorted(reach):
+        fn = spc.methods[mname]["function"]
+        w = writes(fn)
+        r = {f for f in ts_common.this_fields_read(fn, mod, "SchemaPrintingContext") if f in mutable}
+        rep.ob(rid, "%s/pure" % mname, not w and not r,
+               "SchemaPrintingContext.%s yields the text emitted as `$ref` but %s: the reference to one and the same name then depends on what was printed before, and a reference handed out earlier can point at a name the export does not contain" % (
+                   mname, "; ".join(x for x in ("writes " + ", ".join(sorted(w)) if w else "", "reads the mutable " + ", ".join(sorted(r)) if r else "") if x)),
+               mod.loc(fn), sample={"method": mname, "writes": sorted(w), "reads_mutable": sorted(r)})
+    for mname in sorted(storers):
+        fn = spc.methods[mname]["function"]
+        ps = ts_common.fn_params(fn)
+        if not ps or fn.get("body") is None:
+            continue
+        want = "this.%s[%s]" % (defs_field, ps[0])
+        def pred(x):
+            return x["type"] == "AssignmentExpression" and s(x["left"]).replace(" ", "") == want
+        ok = _must_exec(fn["body"]["stmts"], pred)
+        rep.ob(rid, "%s/stores-under-its-name" % mname, ok,
+               "SchemaPrintingContext.%s does not assign %s on every normal path: a body handed in for a name can go unrecorded while `$ref`s to that name have already been emitted" % (mname, want),
+               mod.loc(fn), sample={"method": mname, "assignment": want})
